@@ -190,6 +190,17 @@ def programs(thorough):
         if thorough:
             yield [[{"row": 2, "indent": 0, "tab": 0, "cells": a}, {"row": 3, "indent": 0, "tab": 0, "cells": b},
                     {"row": 10, "indent": 16, "tab": 2, "cells": c}]]
+    # four consecutive rows (the CEA-608 maximum of a pop-on caption): anchored at the FIRST row
+    for top, indent, tab in ((12, 0, 0), (1, 8, 2), (5, 4, 0)):
+        yield [[{"row": top + k, "indent": indent if k == 0 else 0, "tab": tab if k == 0 else 0, "cells": pool[(top + k) % n]}
+                for k in range(4)]]
+    # a later row that starts with the whole text of an earlier row, followed by a mid-row code (nodes that compare equal)
+    yes, go = [("txt", "Yes")], [("txt", "Go")]
+    yield [[{"row": 14, "indent": 0, "tab": 0, "cells": yes},
+            {"row": 15, "indent": 0, "tab": 0, "cells": yes + [("mid", True), ("txt", "sir")]}]]
+    yield [[{"row": 13, "indent": 4, "tab": 0, "cells": go}, {"row": 14, "indent": 4, "tab": 0, "cells": [("txt", "NO")]},
+            {"row": 15, "indent": 4, "tab": 0, "cells": go + [("mid", True), ("txt", "on")]}]]
+    yield [[{"row": 14, "indent": 0, "tab": 0, "cells": go}, {"row": 15, "indent": 0, "tab": 0, "cells": go + [("bg", 2), ("txt", " on")]}]]
     # two loads in a row (state carried from one load to the next)
     for i in range(n):
         a, b = pool[i], pool[(i + 3) % n]
@@ -413,6 +424,29 @@ def explore_rolling(ctx, thorough):
         for nrows in (1, 2, 4):
             cases.append(("paint-on", painton_stream(texts[:nrows], d, drop), texts[:nrows], d))
         cases.append(("paint-on from 00:00:00", painton_stream(texts[:2], d, drop, start_second=0), texts[:2], d))
+    # a row addressed twice before its text arrives: an address on another row that stays unused, then the row below it
+    for d in (1, 2):
+        for mode, head in (("roll-up 3", [RU[3]] * d + [C.CONTROL["CR"]] * d), ("paint-on", [C.CONTROL["RDC"]] * d)):
+            lines_ = ["Scenarist_SCC V1.0", ""]
+            for k, text in enumerate(texts[:3]):
+                # (the first row is addressed once; every later one by an unused address elsewhere and then the row below that)
+                words = list(head) + ([pac(15, 0)] * d if k == 0 else [pac(3 * k + 2, 4)] * d + [pac(3 * k + 3, 0)] * d)
+                for tok in text:
+                    words += text_words(tok) if isinstance(tok, str) else [SPECIAL[tok[1]]] * d
+                lines_ += [f"{tc(1 + 2 * k, 0, False)}\t" + " ".join(words), ""]
+            lines_ += [f"{tc(7, 0, False)}\t" + " ".join([C.CONTROL["EDM"]] * d), ""]
+            cases.append((f"{mode}, each row addressed twice (an unused address first)", "\n".join(lines_), texts[:3], d))
+    # a whole roll-up program on ONE time-code line (the gaps sent as null words): the frame count runs past 1000
+    for drop in (False, True):
+        words = []
+        for k, text in enumerate(texts[:3]):
+            words += [RU[2], C.CONTROL["CR"], pac(15, 0)]
+            for tok in text:
+                words += text_words(tok) if isinstance(tok, str) else [SPECIAL[tok[1]]]
+            words += ["8080"] * 520
+        words += [C.CONTROL["EDM"]]
+        cases.append(("roll-up 2, one line of more than 1500 words", "\n".join(["Scenarist_SCC V1.0", "", f"{tc(1, 0, drop)}\t" + " ".join(words), ""]),
+                      texts[:3], 1))
     for label, doc, rows, d in cases:
         n += 1
         got = E_.read(doc)
@@ -594,6 +628,44 @@ def explore_times(ctx, thorough):
                 bad["end"].append(dict(case, times=gs, required=[tuple(w) for w in want]))
             elif abs(gs[-1][1] - want[-1][1]) > 0.01:
                 bad["final"].append(dict(case, times=gs, required=[tuple(w) for w in want]))
+    # a line whose words run past a minute boundary (one frame per word, whatever the separator), an erase that arrives
+    # while the next caption is already loaded, and code words still arriving long after the last caption was shown
+    for d, drop in itertools.product((1, 2), (False, True)):
+        filler = text_words("THIS ROW IS LONG ENOUGH TO CROSS")          # 16 words
+        words = [C.CONTROL["RCL"]] * d + [C.CONTROL["ENM"]] * d + [pac(15, 0)] * d + filler
+        eoc_at = len(words)
+        words += [C.CONTROL["EOC"]] * d
+        lines = ["Scenarist_SCC V1.0", "", f"{tc(59, 25, drop)}\t" + " ".join(words), "",
+                 f"00:01:02{';' if drop else ':'}00\t" + " ".join([C.CONTROL["EDM"]] * d), ""]
+        want = [[instant(59, 25, eoc_at, drop), instant(62, 0, 0, drop)]]
+        scen = [("a line crossing a minute boundary", lines, want)]
+        # load A, show A; load B on its own line; erase on its own line; show B on its own line
+        la = [C.CONTROL["RCL"]] * d + [C.CONTROL["ENM"]] * d + [pac(15, 0)] * d + text_words("FIRST")
+        lb = [C.CONTROL["RCL"]] * d + [C.CONTROL["ENM"]] * d + [pac(14, 0)] * d + text_words("SECOND")
+        lines = ["Scenarist_SCC V1.0", "", f"{tc(1, 0, drop)}\t" + " ".join(la + [C.CONTROL["EOC"]] * d), "",
+                 f"{tc(3, 0, drop)}\t" + " ".join(lb), "", f"{tc(5, 0, drop)}\t" + " ".join([C.CONTROL["EDM"]] * d), "",
+                 f"{tc(6, 10, drop)}\t" + " ".join([C.CONTROL["EOC"]] * d), "",
+                 f"{tc(8, 0, drop)}\t" + " ".join([C.CONTROL["EDM"]] * d), ""]
+        want = [[instant(1, 0, len(la), drop), instant(5, 0, 0, drop)], [instant(6, 10, 0, drop), instant(8, 0, 0, drop)]]
+        scen.append(("an erase while the next caption is already loaded", lines, want))
+        # the last caption is never erased; a further load keeps arriving nine seconds later and is never shown
+        lines = ["Scenarist_SCC V1.0", "", f"{tc(1, 0, drop)}\t" + " ".join(la + [C.CONTROL["EOC"]] * d), "",
+                 f"{tc(10, 0, drop)}\t" + " ".join(lb), ""]
+        want = [[instant(1, 0, len(la), drop), instant(1, 0, len(la), drop) + 4000000]]
+        scen.append(("code words still arriving long after the last caption was shown", lines, want))
+        for label, lines, want in scen:
+            n += 1
+            got = E_.read("\n".join(lines))
+            case = {"scenario": label, "codes": "doubled" if d == 2 else "single", "timecode": "drop-frame" if drop else "non-drop",
+                    "stream": "\n".join(lines[2:])[:300]}
+            if isinstance(got, tuple):
+                bad["start"].append(dict(case, raises=f"{got[1]}: {got[3]}"[:120]))
+                continue
+            gs = [(g["start"], g["end"]) for g in got]
+            if len(gs) != len(want) or any(abs(a[0] - b[0]) > 0.01 for a, b in zip(gs, want)):
+                bad["start"].append(dict(case, times=gs, required=[tuple(w) for w in want]))
+            elif any(abs(a[1] - b[1]) > 0.01 for a, b in zip(gs, want)):
+                bad["final" if "long after" in label else "end"].append(dict(case, times=gs, required=[tuple(w) for w in want]))
     # offset: subtracted, floored at zero
     for off in (1, -3, 0.5):        # (an offset beyond the first caption floors whole captions to zero: outside the compared domain)
         prog = [one("A"), one("B")]
